@@ -1133,14 +1133,25 @@ def run(ck):
                         'arguments) on Kekule forms of corpus molecules compared after every step; every case is a distinct history and is '
                         'non-trivial (it compares atoms, bonds, cached keys, _changed, _backup, staleness, identity partition). search: the same runs, '
                         'compared with a molecule rebuilt from scratch after every history (random: after every step), plus stereo seeds and reactions')
+    import time
+    t0 = time.time()
     proved = common.standard_proof_steps(ck)
+    t1 = time.time()
     cr = Corr(ck)
     explore_exhaustive(cr, 3 if quick else 4, 3)
     n_ex = len(cr.cases)
+    t2 = time.time()
     ok1, failing1, log1 = corr_run(cr, 'c13')
+    t3 = time.time()
     cr2 = Corr(ck)
     explore_random(cr2, 50 if quick else 1500, 12 if quick else 25)
+    t4 = time.time()
     ok2, failing2, log2 = corr_run(cr2, 'c13r', shard=7 if quick else 25)
+    t5 = time.time()
+    ck.extra['phase_seconds'] = {'proof steps': round(t1 - t0, 1), 'exhaustive histories on the real code (+ search oracles)': round(t2 - t1, 1),
+                                 'model on exhaustive histories (coqc vm_compute)': round(t3 - t2, 1),
+                                 'random histories on the real code (+ search oracles)': round(t4 - t3, 1),
+                                 'model on random histories': round(t5 - t4, 1)}
     ok = ok1 and ok2
     bad = [cr.meta[i] for i in failing1] + [cr2.meta[i] for i in failing2]
     ck.oblige(f'correspondence: real MoleculeContainer == Cache model on {n_ex} exhaustive histories and {len(cr2.cases)} random ones',
